@@ -67,6 +67,18 @@ FIRST_MISSED = {
              '(the first run reported it as caught: that was a false alarm of M4, see section 6)',
     'c15-h': 'literal case: one file named by two spellings in a files-condition',
     'c18-g': 'text special to str.format / % (`{`, `}`, `{0}`, `%s`) in integers, regexes, replacements, names',
+    # round 5: single-site mutations in the anchored files (four per property)
+    'c04-k': 'every third D1 case is also executed as a member of a suite: no sandbox left, process state restored',
+    'c07-j': 'indented escaped act lines (the escape character is the first non-space character)',
+    'c07-k': 'blank / comment lines between an instruction description and its instruction',
+    'c07-l': 'defective elements of 3-4 lines with the defective token on the last line: all their source lines shown',
+    'c09-k': 'several blanks / a tab before the continuation marker, blanks after it',
+    'c14-i': 'M4 was at fault again: its Tee turned `writelines` into a loop of `write` calls, so the mutated '
+             '`SpooledTextFile.writelines` never ran; it now delegates, and every fourth shard runs without M4 wrappers',
+    'c14-j': 'family `concat-stdin`: two-part texts whose second part is written by a sub process, also as expected operand',
+    'c14-k': 'texts longer than 2**16 characters',
+    'c18-l': 'runs of white-space-only lines (FF, VT, NBSP), also after / inside the gap of an instruction description',
+    'c19-i': 'part Z: `timeout = 0` decided by the M2 record (workload of C11 kind zero)',
 }
 
 
@@ -87,9 +99,9 @@ def main():
     n = len(rows)
     k = sum(1 for r in rows if r[3] == 'missed')
     print()
-    print('%d changes; first pass: %d caught, %d missed; by round (a/b, c/d, e/f, g/h): %s' % (
+    print('%d changes; first pass: %d caught, %d missed; by round (a/b, c/d, e/f, g/h, i-l): %s' % (
         n, n - k, k, ', '.join('%d/%d' % (sum(1 for r in rows if r[0][4] in ab and r[3] == 'caught'),
-                                          sum(1 for r in rows if r[0][4] in ab)) for ab in ('ab', 'cd', 'ef', 'gh'))))
+                                          sum(1 for r in rows if r[0][4] in ab)) for ab in ('ab', 'cd', 'ef', 'gh', 'ijkl'))))
 
 
 if __name__ == '__main__':
